@@ -48,8 +48,66 @@ func beReadsOf(fn *ssa.Function) []beRead {
 		if ct, ok := arg.(*ssa.ChangeType); ok {
 			arg = ct.X
 		}
+		// the bytes may come from a bounds-checked range helper (`buf, err := s.memRange(pos, pos+8, …)`):
+		// its arguments are the bounds
+		if lo, hi, ok := rangeHelperBounds(arg); ok {
+			r.low = lo
+			if bo, ok := hi.(*ssa.BinOp); ok && bo.Op == token.ADD && (bo.X == lo || structEq(bo.X, lo, 0)) {
+				if k, ok := constInt64(bo.Y); ok {
+					r.sliceWidth = int(k)
+				} else if k, ok := constUint64(bo.Y); ok {
+					r.sliceWidth = int(k)
+				}
+			}
+		}
 		if sl, ok := arg.(*ssa.Slice); ok {
 			r.low = sl.Low
+			// parts of a window read in one go: win[:2], win[2:] (win = a checked range of known width)
+			if lo, hi, ok := rangeHelperBounds(sl.X); ok {
+				win := -1
+				if bo, ok := hi.(*ssa.BinOp); ok && bo.Op == token.ADD {
+					// pos + 2 + 8 is ((pos + 2) + 8)
+					tot, base := int64(0), ssa.Value(bo)
+					for {
+						b2, ok := base.(*ssa.BinOp)
+						if !ok || b2.Op != token.ADD {
+							break
+						}
+						k, okk := constInt64(b2.Y)
+						if !okk {
+							ku, oku := constUint64(b2.Y)
+							if !oku {
+								break
+							}
+							k = int64(ku)
+						}
+						tot += k
+						base = b2.X
+					}
+					if base == lo || structEq(base, lo, 0) {
+						win = int(tot)
+					}
+				}
+				lowK, highK := int64(0), int64(-1)
+				if sl.Low != nil {
+					if k, ok := constInt64(sl.Low); ok {
+						lowK = k
+					} else {
+						lowK = -1
+					}
+				}
+				if sl.High != nil {
+					if k, ok := constInt64(sl.High); ok {
+						highK = k
+					}
+				} else if win >= 0 {
+					highK = int64(win)
+				}
+				if lowK >= 0 && highK >= 0 {
+					r.sliceWidth = int(highK - lowK)
+					r.low = lo
+				}
+			}
 			if bo, ok := sl.High.(*ssa.BinOp); ok && bo.Op == token.ADD && (bo.X == sl.Low || structEq(bo.X, sl.Low, 0)) {
 				if k, ok := constInt64(bo.Y); ok {
 					r.sliceWidth = int(k)
@@ -256,7 +314,7 @@ func ruleR27() *Rule {
 			}
 			if lf := c.method("SegmentBase", "loadFieldsNew"); lf != nil {
 				rs := beReadsDeep(c.p, lf)
-				okc := len(rs) == 1 && rs[0].width == 8 && rs[0].sliceWidth == 8 && strideAddedDeep(c.p, lf, 8)
+				okc := allU64Reads(rs) && strideAddedDeep(c.p, lf, 8)
 				c.add2(okc, props, "fields-index/reader", c.fpos(lf), "loadFieldsNew reads each field record offset as u64 big endian with stride 8", fmt.Sprintf("%d fixed-width reads", len(rs)))
 			}
 			// ---- 2. stored-document index ----------------------------------------
@@ -273,18 +331,25 @@ func ruleR27() *Rule {
 					continue
 				}
 				ws := beWritesDeep(c.p, fn)
-				okc := len(ws) == 1 && ws[0].width == 8 && ws[0].be
+				// (alternative ways of writing the table — one Write per offset, or batches encoded with
+				// PutUint64 — must all be u64 big endian)
+				okc := len(ws) >= 1
+				for _, wv := range ws {
+					if wv.width != 8 || !wv.be {
+						okc = false
+					}
+				}
 				nw++
 				c.add2(okc, props, "stored-index/writer/"+name, c.fpos(fn), name+" writes each stored-document offset as one u64 big endian", fmt.Sprintf("fixed-width writes: %v", widthsOfWrites(ws)))
 			}
 			if g := c.method("SegmentBase", "getDocStoredOffsets"); g != nil {
 				rs := beReadsDeep(c.p, g)
-				okc := len(rs) == 1 && rs[0].width == 8 && rs[0].sliceWidth == 8 && strideAddedDeep(c.p, g, 8)
+				okc := allU64Reads(rs) && strideAddedDeep(c.p, g, 8)
 				c.add2(okc, props, "stored-index/reader", c.fpos(g), "getDocStoredOffsets reads entry docNum of the stored index as u64 big endian at storedIndexOffset + 8*docNum", fmt.Sprintf("%d fixed-width reads", len(rs)))
 			}
 			if cs := c.method("SegmentBase", "copyStoredDocs"); cs != nil {
 				rs := beReadsDeep(c.p, cs)
-				okc := len(rs) == 1 && rs[0].width == 8 && rs[0].sliceWidth == 8 && strideAddedDeep(c.p, cs, 8)
+				okc := allU64Reads(rs) && strideAddedDeep(c.p, cs, 8)
 				c.add2(okc, []string{"C09", "C05"}, "stored-index/copy-reader", c.fpos(cs), "copyStoredDocs walks the input's stored index as u64 big endian entries with stride 8", fmt.Sprintf("%d fixed-width reads", len(rs)))
 			}
 			// ---- 3. doc-value trailer --------------------------------------------
@@ -348,4 +413,71 @@ func ruleR27() *Rule {
 			}
 		},
 	}
+}
+
+// rangeHelperBounds: v is the byte-slice result of a call to a function of the package that hands back
+// `x.mem[a:b]` for two of its parameters a, b (after checking them): returns the call's arguments for a, b.
+func rangeHelperBounds(v ssa.Value) (lo, hi ssa.Value, ok bool) {
+	v = resolveLoad(v)
+	if ex, isEx := v.(*ssa.Extract); isEx && ex.Index == 0 {
+		v = ex.Tuple
+	}
+	call, isCall := v.(*ssa.Call)
+	if !isCall {
+		return nil, nil, false
+	}
+	f := call.Call.StaticCallee()
+	if f == nil || len(f.Blocks) == 0 || f.Pkg == nil || !strings.HasPrefix(f.Pkg.Pkg.Path(), zapPkgPath) {
+		return nil, nil, false
+	}
+	li, hiIdx := -1, -1
+	n := 0
+	for _, ret := range returnsOf(f) {
+		if len(ret.Results) == 0 {
+			return nil, nil, false
+		}
+		r0 := ret.Results[0]
+		if isNilConst(r0) {
+			continue
+		}
+		sl, isSl := r0.(*ssa.Slice)
+		if !isSl {
+			return nil, nil, false
+		}
+		if _, fld, _, okf := loadedField(sl.X); !okf || fld != "mem" {
+			return nil, nil, false
+		}
+		pl, ok1 := sl.Low.(*ssa.Parameter)
+		ph, ok2 := sl.High.(*ssa.Parameter)
+		if !ok1 || !ok2 {
+			return nil, nil, false
+		}
+		for i, q := range f.Params {
+			if q == pl {
+				li = i
+			}
+			if q == ph {
+				hiIdx = i
+			}
+		}
+		n++
+	}
+	if n == 0 || li < 0 || hiIdx < 0 || li >= len(call.Call.Args) || hiIdx >= len(call.Call.Args) {
+		return nil, nil, false
+	}
+	return call.Call.Args[li], call.Call.Args[hiIdx], true
+}
+
+// allU64Reads: there is at least one fixed-width read and every one of them is a u64 over 8 bytes (a
+// validating helper may read the same entry a second time).
+func allU64Reads(rs []beRead) bool {
+	if len(rs) == 0 {
+		return false
+	}
+	for _, r := range rs {
+		if r.width != 8 || r.sliceWidth != 8 {
+			return false
+		}
+	}
+	return true
 }
